@@ -174,6 +174,9 @@ class MethodMixin:
                 if f is None:
                     raise Unsupported("spec function count_char missing")
                 return self.call_closure(f, [s, c, SV(INT, alen(s.t))], {})
+            ext = self.engine.extern("str.count")
+            if ext is not None and S.mode_of(s, c) != "array":
+                return ext(self, [s, c], {})
             raise Unsupported("str.count in this encoding")
         if name == "replace" and len(args) == 2 and S.mode_of(s, *args) != "array":
             a2 = [self.to_str(x) if not is_str(x) else x for x in args]
@@ -240,7 +243,13 @@ class MethodMixin:
                 s = sort_of(ty)
                 r = z3.Const(ctx.fresh_name("sorted"), s)
                 ctx.assume(s.len(r) == s.len(cell.sym.t))
+                if ty.args[0].name in ("Ref", "Int", "Str"):      # sorting permutes: same members
+                    from .core import mem_fn
+                    m = mem_fn(ty)
+                    e = z3.Const(ctx.fresh_name("e"), sort_of(ty.args[0]))
+                    ctx.assume(z3.ForAll([e], m(r, e) == m(cell.sym.t, e)))
                 cell.sym = SV(ty, r)
+                ctx.assume_type_inv(cell, ty)
             self.write_back(cell)
             return None
         if name == "insert":
